@@ -163,7 +163,8 @@ PROPS = {
         "engines": [{"kind": "pyse"}],
         "explanation": "PROVED for all inputs (z3): is_overlap is true exactly when the open interiors of the rectangles intersect; waveage's "
         "mask is, at every position/frequency/direction, celerity(f, depth) <= agefac*wspd*cos(dir - wdir) (celerity by its own contract: "
-        "1.56/f or omega/k with the Chen-Thomson k). BOUNDED (run-time contracts of the real accessor methods with independent oracles on "
+        "1.56/f or omega/k with the Chen-Thomson k); _interp_freq returns, for any number of frequencies, the linear interpolant of "
+        "the two bracketing bins with the cutoff as its single frequency coordinate. BOUNDED (run-time contracts of the real accessor methods with independent oracles on "
         "seeded datasets with rolled/descending direction storage, every run): ptm4 assigns each bin by that rule, parts disjoint and summing "
         "to the input, coordinates sorted; bbox gives each box exactly its bins (omitted limits = grid extremes), remainder last, overlapping "
         "boxes rejected, query dicts untouched; split keeps the band unchanged, removes the rest, inserts the linear interpolant at off-grid "
@@ -201,7 +202,7 @@ PROPS = {
         "[0,360)), winds from components come back as speed and coming-from direction, missing ERA5 values become zero energy, lon/lat "
         "lose a time dimension, and the caller's dataset is left untouched.",
         "trusted_base": ["independent numpy oracles in contracts/converters.py"],
-        "assumptions": ["NDBC netCDF converter (from_ndbc) is not covered", "converters are not proved symbolically (Dataset rename/drop/assign chain): bounded replays only",
+        "assumptions": ["NDBC netCDF converter (from_ndbc) is not covered", "variance preservation follows from the per-bin factors and the coordinate maps (dd invariant under relabelling: C10 lemma); the integral identity itself is checked on bounded replays",
                         "direction reproduces (u, v): concrete replays only (atan2 identities)"],
         "technique": "exhaustive enumeration of a finite dispatch domain on the real function + run-time contracts with independent oracles (bounded) + z3 for scalar kernels",
     },
@@ -210,7 +211,8 @@ PROPS = {
         "engines": [{"kind": "pyse"}],
         "explanation": "PROVED for any number of stations (symbolic extent, z3): Coordinates.distance equals sqrt(dlon^2 + dlat^2) with the "
         "longitude difference taken the short way round (min(|d| mod 360, 360 - ...)) at every station; Coordinates.nearest returns an index in "
-        "range together with that station's distance. BOUNDED (run-time contracts with a brute-force oracle on seeded layouts around the 0 and "
+        "range together with that station's distance; _swap_longitude_convention maps every longitude to the congruent value of the other "
+        "convention. BOUNDED (run-time contracts with a brute-force oracle on seeded layouts around the 0 and "
         "180 meridians, both conventions for dataset and query, lists and arrays, every run): nearest returns a station at minimum distance or "
         "fails beyond the tolerance; idw returns the 1/d weighted mean of up to max_sites stations in range (the station itself at zero distance, "
         "missing with fewer than two); bbox returns exactly the stations inside [min-tol, max+tol] in the query's convention; longitudes are "
@@ -229,7 +231,9 @@ PROPS = {
         "continued twice. BOUNDED (run-time contract of np_track_partitions with an independent checker): EXHAUSTIVE over all 729 histories of 3 "
         "steps x 2 partitions on a 3-symbol alphabet plus seeded random histories (2-7 steps, 1-4 partitions, gaps, slot swaps): identifiers are "
         "-999 exactly on empty partitions, unique within a step, exactly 0..N-1 issued in order of first appearance, carried only within the "
-        "thresholds, never reappear once dropped. dfp_swell proved.",
+        "thresholds, never reappear once dropped. dfp_swell proved. np_track_partitions' identifier bookkeeping is additionally executed "
+        "symbolically for 2 partitions x 2 and 3 steps (all values, all 29 / 227 paths, matching step by its contract): markers exactly on "
+        "empty partitions, identifiers unique within a step and below the reported count.",
         "trusted_base": ["independent checker in contracts/tracking.py"],
         "assumptions": ["three or more partitions: the symbolic run exceeds the path budget (bounded replays only)",
                         "int16 identifiers: more than 32767 births are outside the claim", "sites tracked independently: apply_ufunc(vectorize) contract"],
